@@ -139,7 +139,7 @@ def run(ctx):
                             "the directory early-out of the extension filter comes after the filter patterns were offered the path", cloc,
                             fail="directories are rejected by the extension rule before the filter patterns are consulted: a directory matching a filter pattern is rejected")
             if "is-dir" in pos:
-                ctx.require("has-exts" in pos and pos["has-exts"] < pos["is-dir"] and idx["has-exts"][1][2] is True and idx["has-exts"][1][1].startswith("Not "),
+                ctx.require("has-exts" in pos and pos["has-exts"] < pos["is-dir"] and idx["has-exts"][1][2] is False,
                             "R11.2", "dir-rule-only-with-extensions:" + key, "the directory rule applies only when extensions are configured", cloc)
             if p.out == "ret" and val == "True":
                 n_true += 1
@@ -151,7 +151,7 @@ def run(ctx):
                 ctx.require(val == "Not filtered", "R11.2", "fallthrough:" + key, "the fall-through verdict is !filtered", cloc, detail=str(val))
                 sets = [e for e in p.ev if e[0] == "assign" and e[1] == "filtered"]
                 entered = ("has-filters" in idx and idx["has-filters"][1][2] is True) or \
-                          ("has-exts" in idx and idx["has-exts"][1][1].startswith("Not ") and idx["has-exts"][1][2] is True)
+                          ("has-exts" in idx and idx["has-exts"][1][2] is False)
                 ctx.require(bool(sets) == bool(entered), "R11.2", "filtered-flag:" + key, "`filtered` is set exactly when filters or extensions are configured", cloc)
         ctx.floor("R11.2", "`true` paths", n_true, 3)
     except Skip:
